@@ -255,7 +255,14 @@ class ScaledInPlace(Harness):
         from pybrops.core.mat.DenseScaledMatrix import DenseScaledMatrix
         n, t = self.params["n"], self.params["t"]
         R = inp["R"]
-        sm = DenseScaledMatrix(mat=R.copy())
+
+        def fresh():
+            # location 0 / scale 1 given explicitly as engine arrays while running symbolically (the default builds plain numpy buffers,
+            # which cannot receive symbolic cells should the code write into them in place)
+            if mk.concrete:
+                return DenseScaledMatrix(mat=R.copy())
+            return DenseScaledMatrix(mat=R.copy(), location=symnp.box(numpy.zeros(t)), scale=symnp.box(numpy.ones(t)))
+        sm = fresh()
         sm.rescale(inplace=True)                    # centre and scale in place
         X = inp["X"]
         tr = sm.transform(X.copy(), copy=False)
@@ -269,7 +276,7 @@ class ScaledInPlace(Harness):
         ints = DenseScaledMatrix(mat=R.copy(), location=li, scale=si)
         ints.rescale(inplace=True)
         un_int = ints.unscale(inplace=False)
-        other = DenseScaledMatrix(mat=R.copy())
+        other = fresh()
         before = (other.location.copy(), other.scale.copy(), other.mat.copy())
         resc = other.rescale(inplace=False)
         after = (other.location, other.scale, other.mat)
